@@ -141,6 +141,23 @@ def extra(binary, build, tier, rng):
                         break
                 if word is not None:
                     cands.append((params[j % 4], zb, word))
+        # which evaluation of mean + sd*z the implementation uses on ORDINARY z-scores (fused or unfused in f32; they differ on a fair share
+        # of all z): a deterministic transform is one arithmetic expression, so whatever it is there it must be on the sensitive z-scores too
+        oparams = [(0.3, 1.7), (1.5, 0.9), (-0.7, 2.2), (0.011, 0.37)]       # mean and sd*z of comparable size: the product's rounding shows
+        oz = [(oparams[i % 4], struct.unpack("<I", struct.pack("<f", (rng.below(8000001) - 4000000) / 1.0e6 + rng.below(1000) * 1e-9))[0]) for i in range(240)]
+        oreq = []
+        for (a, b), zb in oz:
+            oreq += ["norm w=32 ctor=new a=%d b=%d via=try n=1 z=%d words=" % (G.f32b(a), G.f32b(b), zb),
+                     "fp op=fma w=32 a=%d b=%d c=%d" % (G.f32b(b), zb, G.f32b(a)), "fp op=mul w=32 a=%d b=%d" % (G.f32b(b), zb)]
+        rc, ores, err = C.run_lines(binary, ["run"], oreq)
+        rc, oadd, err = C.run_lines(binary, ["run"], ["fp op=add w=32 a=%s b=%d" % (ores[3 * i + 2], G.f32b(oz[i][0][0])) for i in range(len(oz))])
+        nf = nu = 0
+        for i in range(len(oz)):
+            zt = [x for x in ores[3 * i].split() if x.startswith("z:")]
+            if zt and ores[3 * i + 1] != oadd[i]:
+                nf += zt[0][2:] == ores[3 * i + 1]
+                nu += zt[0][2:] == oadd[i]
+        style = "fused" if nf >= 12 and nu == 0 else "unfused" if nu >= 12 and nf == 0 else None
         sreq = []
         for (a, b), zb, word in cands:
             sreq += ["zig kind=norm w=32 n=1 words=%d" % word,
@@ -162,8 +179,12 @@ def extra(binary, build, tier, rng):
             if got != zt[0][2:]:
                 yield {"kind": "oracle", "build": build, "request": sreq[5 * i + 1], "impl": sres[5 * i + 1], "model": sres[5 * i + 2],
                        "oracle": "Normal<f32> sample differs from from_zscore(z) of the standard-normal sample drawn from the same word (z bits %d, a z-score on which evaluation through f64 rounds differently)" % zb}
+            elif style and got != (sres[5 * i + 3] if style == "fused" else ares[i]):
+                yield {"kind": "oracle", "build": build, "request": sreq[5 * i + 1], "impl": sres[5 * i + 1], "model": "fused %s unfused %s" % (sres[5 * i + 3], ares[i]),
+                       "oracle": "Normal<f32>: on %d ordinary z-scores where the two differ the transform is the %s evaluation of mean + sd*z in f32 and never the other one, but for z bits %d (a z-score on which an evaluation through f64 rounds twice) the sample is not the %s value: the transform is not mean + sd*z in the sample's arithmetic" % (nf + nu, style, zb, style)}
             elif got not in (sres[5 * i + 3], ares[i]):
                 yield {"kind": "oracle", "build": build, "request": sreq[5 * i + 1], "impl": sres[5 * i + 1], "model": "fused %s unfused %s" % (sres[5 * i + 3], ares[i]),
                        "oracle": "Normal<f32> sample is not mean + sd*z (fused or unfused, platform arithmetic in f32) for z bits %d" % zb}
         yield {"kind": "count", "what": "sensitive-zscores-tested", "n": len(cands)}
+        yield {"kind": "count", "what": "ordinary-zscores-fused-%d-unfused-%d" % (nf, nu), "n": len(oz)}
         yield {"kind": "count", "what": "sensitive-zscore-search-iterations", "n": iters * 16}
